@@ -45,7 +45,15 @@ def run(ctx):
                        'child pointer while attached, cancels the timer when detached and never touches a closed request; every life '
                        'cycle ends with nothing registered', floor=25)
     ctx.rule('R-C19e', 'no signal after the child ended: the wait module recognises exited and signalled children as terminated (shared with C11)', floor=6)
+    ctx.rule('R-C19f', 'no signal after the child ended, the gate, evaluated: the function of the wait module the popen kill timer signals through '
+                       'is run on an interest whose flag word is clear or holds a value the reaper stores, the reaper being free to mark it '
+                       'whenever the function acquires a lock while not holding the lock of the pid set: kill() is executed only with that '
+                       'lock held and the flag in memory clear, with the interest\'s pid and the caller\'s signal (same demand as C11 R-C11c), '
+                       'and a live child is signalled; and reaping a terminating status stores that flag for the interest the status is routed '
+                       'to, so the gate is closed from the moment the pid is reaped, before the exit notification reaches the popen module', floor=8)
     ctx.section(lambda c: __import__('ivy.rules.c11', fromlist=['x']).status_table(c, 'R-C19e'))
+    ctx.section(kill_gate)
+    ctx.section(dead_mark)
     ctx.section(wiring)
     ctx.section(escalation)
     ctx.section(container)
@@ -396,7 +404,7 @@ def escalation(ctx):
     ctx.ob('R-C19b', 'timer:term-then-kill', seq_ok and bool(seq_det), loc=sloc or hloc,
            detail='SIGTERM first, SIGKILL eventually and from then on; %s' % seq_det, fn=hname)
     ctx.ob('R-C19b', 'timer:signals-through-helper', through_ok and sloc is not None, loc=sloc or hloc,
-           detail='exactly one signal per firing, only through iv_wait_interest_kill on the record\'s own interest (which refuses reaped pids: C11 R-C11c); %s' % thr_det, fn=hname)
+           detail='exactly one signal per firing, only through iv_wait_interest_kill on the record\'s own interest (which refuses reaped pids: R-C19f); %s' % thr_det, fn=hname)
     ctx.ob('R-C19b', 'close:attempt-counter-reset', not und, loc=(und[0]['loc'] if und else clo.loc),
            detail='the escalation state is initialised when the timer is armed: no decision of the kill timer depends on never-written memory; %s'
                   % [show(u['term']) for u in und[:2]], fn=clo.q)
@@ -675,3 +683,108 @@ def detach(ctx):
                 dets += pr
         ctx.ob('R-C19d', 'lifecycle:%s:loop-can-exit' % name, ok and n > 0, loc=clo.loc,
                detail='once the child has ended nothing of the request stays registered with the loop and the record is freed exactly once; %s' % '; '.join(dets[:3]), fn=clo.q)
+
+
+# ----------------------------------------------------------------------------
+# R-C19f
+# ----------------------------------------------------------------------------
+
+def kill_gate(ctx):
+    """The clause `if the child has already ended, or ends at any point during that sequence, no further signal is sent to
+    its process id`, seen from the popen module: between the moment the wait module reaps the child (the pid becomes
+    reusable) and the moment the exit notification cancels the kill timer, the timer may fire (timers run before the
+    queued notification).  The popen module cannot know; what makes the firing harmless is the contract of the helper it
+    signals through: no kill() once the interest is marked dead, decided under the lock the reaper marks it under.
+
+    The contract is evaluated, not matched: the function the kill timer was seen to signal through (in the life-cycle runs
+    of the machine) is executed by the same machine on an interest whose flag word is clear or holds a value the reaper
+    stores, with the reaper allowed to mark it whenever the function takes a lock while it does not hold the lock of the pid
+    set (h19.helper_runs).  Same demand as C11's R-C11c, but by value: helper cuts, snapshots, out-parameters, operations
+    passed as function pointers, lock wrappers evaluate to the same kill() events."""
+    from . import h11
+    prog = ctx.prog
+    st = roots(ctx)
+    used, raw = {}, {}
+    for p in lifecycle(ctx, 'r', ['close', ('timers', MAX_FIRINGS)], dict(ALL_OK)):
+        for e in p.m.log:
+            if e['kind'] == 'signal':
+                used.setdefault(e['name'], e['loc'])
+            elif e['kind'] == 'rawsignal':
+                raw.setdefault(e['name'], e['loc'])
+    helpers = {}
+    for nm in sorted(used):
+        f = prog.funcs.get(nm)
+        if f is not None and f.blocks and not f.static and f.file.endswith('.c') and not f.file.endswith(st['home']):
+            helpers[nm] = f
+    stray = sorted(nm for nm in used if nm not in helpers) + sorted(raw)
+    first = (raw or used)
+    ctx.ob('R-C19f', 'timer:signals-through-gated-helper', bool(helpers) and not stray,
+           loc=((raw.get(stray[0]) or used.get(stray[0])) if stray else (sorted(first.values(), key=str)[0] if first else st['close'].loc)),
+           detail='every signal of the kill timer goes through an exported function of the wait module, whose gate is evaluated below '
+                  '(through: %s; not through such a function: %s)' % (sorted(helpers) or 'nothing', stray or 'nothing'), fn=st['close'].q)
+    if not helpers:
+        raise AnalysisBroken('kill gate: the kill timer signals through no function of the wait module that has a body')
+    lid, setlocks = h19.set_lock_values(prog)
+    dead = h11.dead_values(prog)
+    SIG = ('sym', 'signal')
+    for nm, f in sorted(helpers.items()):
+        kills = []        # (run, event) of every raw kill over all entry states and interleavings
+        for fl0 in [0] + list(dead):
+            for r in h19.helper_runs(prog, f, fl0, dead, SIG, setlocks):
+                kills += [(r, e) for e in r.m.log if e['kind'] == 'rawsignal']
+        if not kills:
+            raise AnalysisBroken('kill gate: %s never reaches kill()' % nm)
+        kloc = kills[0][1]['loc']
+        unl = [(r, e) for (r, e) in kills if not e['locked']]
+        ctx.ob('R-C19f', '%s:kill-under-lock' % nm, not unl, loc=(unl[0][1]['loc'] if unl else kloc),
+               detail='kill() is executed only while the lock of the pid set (%s) is held: the reaper marks a reaped pid dead under that lock, so '
+                      'nothing the helper knows about the flag holds outside it; %s' % (
+                          lid or 'the unit takes no lock', ('held at the kill: %s' % ([show(l) for l in unl[0][1]['held']] or 'nothing')) if unl else ''),
+               fn=f.q, path=(unl[0][0].trail and h19.trail_text(unl[0][0].trail) or None) if unl else None)
+        deadk = [(r, e) for (r, e) in kills if not is_i(e['flags'], 0)]
+        wrong = [(r, e) for (r, e) in kills if len(e['args']) < 2 or e['args'][0] != h19.CHILD_PID or e['args'][1] != SIG]
+        bad = deadk or wrong
+        ctx.ob('R-C19f', '%s:kill-gated' % nm, not bad, loc=(bad[0][1]['loc'] if bad else kloc),
+               detail='no kill() while the dead flag of the signalled interest is set, the flag being the one in memory at the kill (the reaper may '
+                      'set it whenever the set\'s lock is not held); the pid is that interest\'s pid, the signal the caller\'s: the popen kill timer '
+                      'can fire after the child was reaped and before the exit notification cancels it, the helper must refuse by itself; %s' % (
+                          ('kill(%s) executed with flag word %s' % (', '.join(show(a) for a in deadk[0][1]['args']), show(deadk[0][1]['flags']))) if deadk else
+                          ('kill(%s)' % ', '.join(show(a) for a in wrong[0][1]['args'])) if wrong else 'evaluated at %d kill events' % len(kills)),
+               fn=f.q, path=(h19.trail_text(bad[0][0].trail) or None) if bad else None)
+        # a live child is signalled: with the flag clear throughout, the helper sends exactly the caller's signal to the interest's pid
+        ok, det, n = True, '', 0
+        for sg in (SIGTERM, SIGKILL):
+            for r in h19.helper_runs(prog, f, 0, dead, I(sg), setlocks):
+                if r.flipped:
+                    continue
+                n += 1
+                ks = [e for e in r.m.log if e['kind'] == 'rawsignal']
+                if r.end != 'done' or len(ks) != 1 or ks[0]['args'][:2] != [h19.CHILD_PID, I(sg)]:
+                    ok = False
+                    det = det or 'asked for signal %d: %s' % (sg, ['kill(%s)' % ', '.join(show(a) for a in e['args']) for e in ks] or 'no kill()')
+        ctx.ob('R-C19f', '%s:live-child-signalled' % nm, ok and n > 0, loc=kloc,
+               detail='while the interest is not marked dead the helper sends exactly the requested signal to its pid (the escalation reaches the '
+                      'child); %s' % det, fn=f.q)
+
+
+def dead_mark(ctx):
+    """The other half of the gate: the flag the kill helper tests is stored when (and in the pass in which) a terminating
+    status is reaped, for the interest the status is routed to.  The reaper is executed abstractly from its waitpid/wait4
+    call with each terminating status value (h11.reaper_scenario, the paths R-C19e classifies): on every path that queues
+    the status to an interest, that interest's flag word is stored (not cleared).  R-C19e alone accepts a pass that only
+    deletes the pid from the set: then the set forgets the child but the helper still signals its pid."""
+    from . import c11, h11
+    prog = ctx.prog
+    c11.reaper_contexts(prog)
+    dead = h11.dead_values(prog)
+    for name, val, want in h11.STATUS_CASES:
+        if not want:
+            continue
+        for v, r, paths in c11._reaper_paths(prog, val):
+            routed = [fa for (_, fa) in paths if c11._grp(fa, 'Q')]
+            bad = [fa for fa in routed if not (c11._grp(fa, 'Q') <= c11._grp(fa, 'F')) or c11._grp(fa, 'F0')]
+            ctx.ob('R-C19f', 'reaper:%s:marks-routed-interest-dead' % name, bool(routed) and not bad, loc=r['loc'],
+                   detail='on every path of the reaper pass that routes a %s status to an interest, the dead flag of that interest is stored '
+                          '(values the unit stores: %s); %s' % (name, dead if dead != [-1] else 'none',
+                          'never routed' if not routed else ('%d of %d routed paths leave the flag untouched or clear it: the kill helper '
+                          'would signal the reaped pid' % (len(bad), len(routed))) if bad else 'all %d routed paths' % len(routed)), fn=v.root.q)
